@@ -278,7 +278,7 @@ def fixed(acc):
 
 
 def plan(tier, seed):
-    n, k, ml = (200, 8, 25) if tier == "quick" else (5000, 14, 60)
+    n, k, ml = (500, 10, 25) if tier == "quick" else (5000, 14, 60)
     return [("fixed", {})] + [("hyp_shard", {"n": n, "seed": derive_seed(seed, PROPERTY, i), "maxlen": ml}) for i in range(k)]
 
 
